@@ -38,7 +38,7 @@ def install(ctx):
 
 
 def _matrix(rng, lead):
-    kind = int(rng.integers(0, 7))
+    kind = int(rng.integers(0, 8))
     shp = (*lead, 2, 2)
     if kind == 0:
         m = rng.integers(0, 5, shp)
@@ -52,6 +52,13 @@ def _matrix(rng, lead):
         m = rng.uniform(0, 1, shp) * rng.integers(0, 2, shp)
     elif kind == 5:
         m = rng.integers(0, 10 ** 12, shp)
+    elif kind == 7:
+        # narrow integer cells near the top of their type: every sum of two or more cells lies outside the cell type's range
+        dt = [np.uint8, np.int8, np.int16, np.uint16, np.int32, np.uint32][int(rng.integers(0, 6))]
+        top = int(np.iinfo(dt).max)
+        m = (top - rng.integers(0, max(2, top // 3), shp)).astype(dt)
+        if rng.random() < 0.3 and m.size:
+            m[..., int(rng.integers(0, 2)), int(rng.integers(0, 2))] = 0
     else:
         m = rng.integers(0, 4, shp)
         m[..., int(rng.integers(0, 2)), :] = 0  # an all-zero row
@@ -134,13 +141,16 @@ def _execute(ctx, case, strict):
         for got_, al_, how in ((ci, a1, "keyword, first call"), (ci2, a2, "keyword, after another alpha"), (ci_pos, a2, "positional"), (ci_def, 0.05, "default alpha after other alphas")):
             C(np.array_equal(np.asarray(got_, dtype=float), np.asarray(getattr(M, nm)(m, al_), dtype=float), equal_nan=True),
               "interval method differs from the module function at the requested alpha", "met-ci-method", ci=nm, alpha=al_, how=how)
+        C(np.array_equal(np.asarray(getattr(M, nm)(m), dtype=float), np.asarray(getattr(M, nm)(m, 0.05), dtype=float), equal_nan=True),  # the bare call is judged by M-met, too
+          "module interval function with alpha left out differs from alpha=0.05 (the documented default)", "met-ci-default", ci=nm)
         fin = ~np.isnan(ci[..., 0])
         C(np.all(ci[..., 0][fin] <= ci2[..., 0][fin] + 1e-15 + (at_ci if rt > 1e-12 else 0)) and np.all(ci[..., 1][fin] >= ci2[..., 1][fin] - 1e-15 - (at_ci if rt > 1e-12 else 0)), "intervals not nested in alpha", "met-ci-nested", ci=nm, alphas=[a1, a2])
         C(np.allclose(cc[..., 0], 1 - ci[..., 1], atol=at_ci, rtol=0, equal_nan=True) and np.allclose(cc[..., 1], 1 - ci[..., 0], atol=at_ci, rtol=0, equal_nan=True),
           "interval of the complementary rate is not the mirrored interval", "met-ci-mirror", ci=nm)
         C(np.all(ci[..., 0][fin] <= ci[..., 1][fin]), "interval lower above upper", "met-ci-order", ci=nm)
     for a, b in CI_ALIASES:
-        C(np.array_equal(getattr(cm, a)(alpha=a1), getattr(cm, b)(alpha=a1), equal_nan=True) and np.array_equal(getattr(M, a)(m, a1), getattr(M, b)(m, a1), equal_nan=True),
-          "CI alias returns different values", "met-ci-alias", pair=[a, b])
+        C(np.array_equal(getattr(cm, a)(alpha=a1), getattr(cm, b)(alpha=a1), equal_nan=True) and np.array_equal(getattr(M, a)(m, a1), getattr(M, b)(m, a1), equal_nan=True)
+          and np.array_equal(getattr(M, a)(m), getattr(M, b)(m), equal_nan=True) and np.array_equal(getattr(cm, a)(), getattr(cm, b)(), equal_nan=True),
+          "CI alias returns different values (alpha given, or left at its default)", "met-ci-alias", pair=[a, b])
     sess.sig_counts[("case",) + sig] += 1
     return bool(m.size and m.max() > 0)
